@@ -50,6 +50,31 @@ theorem invariant {n : Nat} (ops : List (CovOp n)) :
       exact ih P₁ P' (step_psd P P₁ op hP (hops op (by simp)) hs)
         (fun o ho => hops o (by simp [ho])) h
 
+/-- **The update the filters compute since F16 (Joseph form) is the update of the property.** Whenever `Sinv` is the inverse of the
+innovation covariance (the certificate `S · Sinv = 1`), the Joseph form equals `P − K H P`. -/
+theorem joseph_eq_updCov {m n : Nat} (H : QMat m n) (P : QMat n n) (Q Sinv : QMat m m)
+    (hc : (innovCov H P Q).mul Sinv = QMat.one) : updCovJoseph H P Q Sinv = updCov H P Sinv := by
+  apply QMat.toMatrix_inj
+  rw [updCovJoseph_toMatrix, updCov_toMatrix]
+  have hinv := C05.cert_is_inverse H P Q Sinv hc
+  have hS : (innovCov H P Q).toMatrix * Sinv.toMatrix = 1 := by
+    have := congrArg QMat.toMatrix hc; simpa using this
+  have hS' : Sinv.toMatrix * (innovCov H P Q).toMatrix = 1 := mul_eq_one_comm.mp hS
+  have hK : (P.toMatrix * H.toMatrixᵀ * Sinv.toMatrix) * (H.toMatrix * P.toMatrix * H.toMatrixᵀ + Q.toMatrix) =
+      P.toMatrix * H.toMatrixᵀ := by
+    rw [← innovCov_toMatrix, Matrix.mul_assoc, hS', Matrix.mul_one]
+  exact (Mat.joseph P.toMatrix H.toMatrix Q.toMatrix _ hK).symm
+
+/-- **… and it is a valid covariance for ANY `Sinv`**, inverse or not (an `S⁻¹` spoiled by rounding included): symmetric and
+positive semi-definite whenever the prior and the reading noise are. This is what the Joseph form buys over `P − K H P`. -/
+theorem joseph_valid_for_any_gain {m n : Nat} (H : QMat m n) (P : QMat n n) (Q Sinv : QMat m m)
+    (hP : P.toMatrix.PosSemidef) (hQ : Q.toMatrix.PosSemidef) :
+    (updCovJoseph H P Q Sinv).toMatrix.PosSemidef ∧ (updCovJoseph H P Q Sinv).toMatrixᵀ = (updCovJoseph H P Q Sinv).toMatrix := by
+  have h : (updCovJoseph H P Q Sinv).toMatrix.PosSemidef := by
+    rw [updCovJoseph_toMatrix]; exact Mat.joseph_psd_any_gain _ _ _ _ hP hQ
+  refine ⟨h, ?_⟩
+  have := h.isHermitian; rwa [IsHermitian, conjTranspose_eq_transpose_of_trivial] at this
+
 /-- the run never gets stuck on a prediction (the model has no "refuse" branch there) -/
 theorem predict_total {n c : Nat} (P : QMat n n) (G : QMat n n) (V : QMat n c) (M : QMat c c) :
     (covStep P (.predict G V M)).isSome := rfl
@@ -60,5 +85,10 @@ example :
       [.predict (c := 1) (QMat.ofFn fun _ j => if j.val = 0 then 1 else 1/10) (QMat.ofFn fun _ _ => 1) (QMat.ofFn fun _ _ => 1/4),
        .predict (c := 1) (QMat.ofFn fun _ j => if j.val = 0 then 1 else 1/10) (QMat.ofFn fun _ _ => 1) (QMat.ofFn fun _ _ => 1/4)]).map
       QMat.toLists = some [[8873/5000, 8873/5000], [8873/5000, 8873/5000]] := by decide +kernel
+
+/-! non-vacuity for the Joseph form: a gain computed with a WRONG inverse (`Sinv = 1` although `S = 3`) — `P − K H P` goes negative,
+the Joseph form stays positive semi-definite -/
+example : (updCov (m := 1) (n := 1) QMat.one (QMat.ofFn fun _ _ => 2) QMat.one).toLists = [[-2]] ∧
+    (updCovJoseph (m := 1) (n := 1) QMat.one (QMat.ofFn fun _ _ => 2) QMat.one QMat.one).toLists = [[6]] := by decide +kernel
 
 end FormakVerif.C09
